@@ -663,3 +663,56 @@ def _p_option(E, PM, A):
         p = PStub([None, "option", name, "=", val], linenos={2: 4}, lexposs={1: 5, 2: 12}, lexdata="aaaa\n" + " " * 30)
         st, r = no_internal_exception(E, "call[%s]" % tag, lambda: ps2.p_option(p))
         E.oblige("post:" + tag, z3.BoolVal(st == "parser-error" and type(r) is err and r.lineno == 4 and name not in m2.members))
+
+
+@pproof("py:parser.p_dotted_identifier", "Parser.p_dotted_identifier", ["C20", "C11"], must=["post:"])
+def _dotted(E, PM, A):
+    """a dotted name is the components joined by '.', and it carries the line and position of its FIRST token in both forms
+    (IDENTIFIER and IDENTIFIER '.' dotted_identifier) - references, options and diagnostics take their position from it"""
+    ps, _ = mk_parser(PM, A)
+    for slots, want in (([None, "a"], "a"), ([None, "a", ".", "b.c"], "a.b.c")):
+        p = PStub(list(slots), linenos={0: 0, 1: 31}, lexposs={0: 0, 1: 77})
+        ps.p_dotted_identifier(p)
+        E.oblige("post:name[%s]" % want, z3.BoolVal(p[0] == want))
+        E.oblige("post:position[%s]" % want, z3.BoolVal(p.lineno(0) == 31 and p.lexpos(0) == 77))
+    for fn, slots in (("p_type", [None, "T"]), ("p_single_type", [None, "T"]), ("p_base_type", [None, "T"]),
+                      ("p_message_field_name", [None, "n"])):
+        p = PStub(list(slots), linenos={0: 0, 1: 12}, lexposs={0: 0, 1: 40})
+        getattr(ps, fn)(p)
+        E.oblige("post:pass-through[%s]" % fn, z3.BoolVal(p[0] == slots[1] and p.lineno(0) == 12 and p.lexpos(0) == 40))
+
+
+@pproof("py:parser._check_parsing_file", "Parser._check_parsing_file", ["C08", "C09"], must=["post:same-file"],
+        calls=["os.path.samefile"], assumes=["os.path.samefile(a, b) decides whether two paths name the same file (external)"])
+def _cycle(E, PM, A):
+    """an import is cyclic  <=>  the file is THE SAME FILE (os.path.samefile, not string equality) as one being parsed; then p_import
+    raises CyclicImport instead of recursing"""
+    ps, _ = mk_parser(PM, A)
+    stack = ["/x/a.bitproto", "/x/sub/../b.bitproto", "/x/c.bitproto"]
+    ps.filepath_stack = list(stack)
+    same = {k: E.fresh("same%d" % k, "bool") for k in range(3)}
+    asked = []
+
+    class FakePath:
+        def samefile(self, a, b):
+            other = b if a == "/x/b.bitproto" else a
+            asked.append((a, b))
+            return EN.cur().branch(same[stack.index(other)]) if other in stack else False
+
+        def __getattr__(self, n):
+            import os.path as real
+            return getattr(real, n)
+
+    class FakeOs:
+        path = FakePath()
+
+        def __getattr__(self, n):
+            import os as real
+            return getattr(real, n)
+    saved = PM.os
+    PM.os = FakeOs()
+    try:
+        r = ps._check_parsing_file("/x/b.bitproto")
+    finally:
+        PM.os = saved
+    E.oblige("post:same-file", z3.BoolVal(bool(r)) == z3.Or(*same.values()))
